@@ -272,7 +272,9 @@ def export_binvox(voxel, axis_order="xzy"):
         encoding = encoding.transpose((0, 2, 1))
     elif axis_order != "xyz":
         raise ValueError('Invalid axis_order: must be one of ("xyz", "xzy")')
-    rle_data = encoding.flat.run_length_data(dtype=np.uint8)
+    # values are 0/1 and counts were split at 255, but the array is only
+    # uint8 if the encoding happened to store its counts as uint8
+    rle_data = np.asarray(encoding.flat.run_length_data(dtype=np.uint8), dtype=np.uint8)
     return binvox_bytes(rle_data, shape=voxel.shape, translate=translate, scale=scale)
 
 
